@@ -34,8 +34,9 @@ RULE = (
     "Job+CallNode+Evaluation+Value records of two registered harness tasks computed with today's "
     "hash_args_eval. The file is upgraded with migrate() or load() (alternating). Oracle: every start row of "
     "every table present before and after (alembic_version excepted) is found by primary key with equal values "
-    "in the shared columns (DATETIME columns compared as instants); a NULL job.execution_id may only be "
-    "backfilled with the execution that owns the job's root; load() accepts the file, version == latest, "
+    "in the shared columns (DATETIME columns compared as instants); a NULL or newly added "
+    "job.execution_id may only be filled with an execution whose job_id is the job's root (root jobs without "
+    "an execution row are generated below 3.0, where the chain creates stub executions); load() accepts the file, version == latest, "
     "is_db_compatible(); every ORM model can be read; running the harness tasks through a Scheduler on the "
     "upgraded backend returns the recorded result without calling the function (Evaluation path, and CallNode "
     "path with check_valid='shallow'), and a fresh call is executed once, recorded, and cached on the second "
@@ -150,6 +151,7 @@ _exec = st.fixed_dictionaries({
     "t0": st.integers(1_546_300_800, 1_750_000_000),
     "upd": st.one_of(st.none(), _dur.filter(lambda d: d is not None)),
     "null_eid": st.booleans(),
+    "orphan": st.sampled_from([False, False, False, True]),   # root job without an execution row (< 3.0 only)
     "root": _job(2),
 })
 _hx = st.one_of(st.integers(0, 3), st.sampled_from(["a", "é"]))
@@ -301,7 +303,7 @@ class Written:
     """What the writer put in, for the oracles that need the logical view."""
 
     def __init__(self):
-        self.job_exec: dict = {}       # job id -> owning execution id
+        self.job_root: dict = {}       # job id -> id of the root job of its tree
         self.probes: list = []         # (kind, x, y, expected value, has_eval_row)
         self.jobs = 0
         self.failed = 0
@@ -408,8 +410,8 @@ def populate(db: Db, case: dict) -> Written:
         n = counter[0]
         counter[0] += 1
         job_id = jid(ei, n)
-        start = parent_start + job["dt"] if parent_id else parent_start
-        start = start - start % 1_000_000 + job["us"] if job.get("us") is not None else start
+        base = parent_start + (job["dt"] if parent_id else 0)
+        start = base - base % 1_000_000 + job["us"]      # whole second from the tree, microseconds from the job
         if "h" in job:
             task = ht[job["h"]]
             args = [job["x"], job["y"]] if job["h"] == "single" else [job["x"]]
@@ -449,7 +451,7 @@ def populate(db: Db, case: dict) -> Written:
         db.insert("job", id=job_id, start_time=ts(start), end_time=None if end is None else ts(end),
                   task_hash=task.hash, cached=1 if job.get("cached") else 0, call_hash=call_hash,
                   parent_id=parent_id, execution_id=eid(ei) if with_eid else None)
-        w.job_exec[job_id] = eid(ei)
+        w.job_root[job_id] = jid(ei, 0)
         w.jobs += 1
         if start % 1_000_000 or (end is not None and end % 1_000_000):
             w.subsecond += 1
@@ -467,14 +469,19 @@ def populate(db: Db, case: dict) -> Written:
                 extra.append({"h": p["kind"], "x": p["x"], "y": p["y"], "res": p["res"], "dt": 1000, "us": p["us"],
                               "dur": p["dur"], "cached": False, "kids": []})
         root["kids"] = list(root["kids"]) + extra
-        with_eid = not (eid_nullable and ex["null_eid"])
-        if not with_eid:
+        # a root job with no execution row can only exist where job.execution_id is absent or nullable
+        orphan = bool(ex.get("orphan")) and (not db.has("job", "execution_id") or eid_nullable)
+        with_eid = not orphan and not (eid_nullable and ex["null_eid"])
+        if not with_eid and eid_nullable:
             w.labels.add("null-execution-id")
         counter = [0]
         emit(root, ei, counter, None, ex["t0"] * 1_000_000, with_eid)
-        db.insert("execution", id=eid(ei), args=json.dumps(ex["args"]), job_id=jid(ei, 0),
-                  updated_time=None if ex["upd"] is None else ts(ex["t0"] * 1_000_000 + ex["upd"]))
-        entity["exec"].append(eid(ei))
+        if orphan:
+            w.labels.add("root-job-without-execution")
+        else:
+            db.insert("execution", id=eid(ei), args=json.dumps(ex["args"]), job_id=jid(ei, 0),
+                      updated_time=None if ex["upd"] is None else ts(ex["t0"] * 1_000_000 + ex["upd"]))
+            entity["exec"].append(eid(ei))
         w.execs += 1
 
     # ---- tags and tag edits
@@ -607,6 +614,7 @@ def compare(ctx: Ctx, case, start, pre_path, before: dict, sb: dict, after: dict
     """Row-by-row oracle. Returns a list of Violations (all of them, so known findings do not hide others)."""
     out: list = []
     seen_keys: set = set()
+    exec_root = {row["id"]: row["job_id"] for row in after.get("execution", [])}
 
     def add(key, msg):
         if key not in seen_keys:
@@ -641,10 +649,11 @@ def compare(ctx: Ctx, case, start, pre_path, before: dict, sb: dict, after: dict
                 if same_cell(a, b, is_time):
                     continue
                 if t == "job" and col == "execution_id" and a is None:
-                    want = w.job_exec.get(row["id"])
-                    if b != want:
+                    want = w.job_root.get(row["id"])
+                    if exec_root.get(b) != want:
                         add(f"backfill-wrong:{t}.{col}", f"job {row['id']} had no execution_id at {vstr(start)}; the upgrade "
-                                                         f"filled in {b!r} but its root job belongs to execution {want!r}")
+                                                         f"filled in {b!r}, an execution whose root job is {exec_root.get(b)!r}, "
+                                                         f"but the job's root is {want!r}")
                     continue
                 kind = "value-changed"
                 if is_time:
@@ -664,11 +673,11 @@ def compare(ctx: Ctx, case, start, pre_path, before: dict, sb: dict, after: dict
     # derived column: job.execution_id did not exist at the start -> must name the owning execution
     if "job" in after and "execution_id" in sa["job"]["cols"] and "execution_id" not in sb.get("job", {"cols": []})["cols"]:
         for row in after["job"]:
-            want = w.job_exec.get(row["id"])
-            if want is not None and row["execution_id"] != want:
+            want = w.job_root.get(row["id"])
+            if want is not None and exec_root.get(row["execution_id"]) != want:
                 add("backfill-wrong:job.execution_id",
-                    f"job {row['id']} (root job of / descendant in execution {want}) got execution_id "
-                    f"{row['execution_id']!r} from the upgrade")
+                    f"job {row['id']} (root job {want}) got execution_id {row['execution_id']!r} from the upgrade, "
+                    f"an execution whose root job is {exec_root.get(row['execution_id'])!r}")
                 break
     return out
 
